@@ -46,6 +46,15 @@ func c06Pair(x *Ctx) {
 		s.B.prov.autoAccept = true
 	}
 	closeKind := PickB(x, "close", 0.6, []string{"none", "A-safe", "B-safe", "cut", "A-unsafe"})
+	// the sending direction of A stalls for a while in the middle of its datagrams (the
+	// peer's receive window is closed): shorter than the 10 s write deadline nothing may
+	// be lost, longer the connection has to end
+	stallFor := time.Duration(0)
+	stallAfter := 0
+	if x.Feat(FeatTransportStall) && x.Chance("transport-stall", 0.3) {
+		stallFor = []time.Duration{300 * time.Millisecond, 2500 * time.Millisecond, 6 * time.Second, 9500 * time.Millisecond, 12 * time.Second}[x.Choose("stall-for", 5)]
+		stallAfter = x.Choose("stall-after", 6)
+	}
 	type plan struct{ inCallback, later int }
 	plans := map[string]*plan{
 		"A": {x.Choose("cbA", 4), x.Choose("laterA", 27)},
@@ -78,6 +87,12 @@ func c06Pair(x *Ctx) {
 					simrt.Sleep(time.Duration(1+x.Choose("gap", 5)) * 20 * time.Millisecond)
 				}
 				id := base[e.name] + p.inCallback + i
+				if e.name == "A" && stallFor > 0 && i == stallAfter {
+					x.Probe("transport-stall")
+					x.Ev("stall", "A", stallFor.String(), 0)
+					s.A.nc.SetStall(true)
+					x.S.After(stallFor, "unstall A", "", func() { s.A.nc.SetStall(false) })
+				}
 				x.Ev("sent", e.name, "task", id)
 				w.WriteShipMessageWithPayload(spinePayload(id))
 			}
